@@ -10,14 +10,19 @@ package main
 
 import (
 	"bytes"
+	"context"
 	"fmt"
+	"io"
+	"net"
 	"net/http"
 	"net/http/httptest"
 	"os"
 	"path/filepath"
 	"strings"
+	"sync"
 	"sync/atomic"
 	"testing"
+	"time"
 
 	vegeta "github.com/tsenart/vegeta/v12/lib"
 	"github.com/tsenart/vegeta/v12/verifshim/ev"
@@ -110,5 +115,79 @@ func TestC18(t *testing.T) {
 			}
 		}
 	}
+	c18H2CComposition(R)
 	R.Finish(t)
+}
+
+type c18DeadConn struct{ net.Conn }
+
+func (c18DeadConn) Read([]byte) (int, error)         { return 0, io.EOF }
+func (c18DeadConn) Write(p []byte) (int, error)      { return len(p), nil }
+func (c18DeadConn) Close() error                     { return nil }
+func (c18DeadConn) SetDeadline(time.Time) error      { return nil }
+func (c18DeadConn) SetReadDeadline(time.Time) error  { return nil }
+func (c18DeadConn) SetWriteDeadline(time.Time) error { return nil }
+func (c18DeadConn) LocalAddr() net.Addr              { return &net.TCPAddr{} }
+func (c18DeadConn) RemoteAddr() net.Addr             { return &net.TCPAddr{} }
+
+// c18H2CComposition: library use - H2C composed after the options that install
+// a dial function. H2C swaps the transport; the connections it opens still go
+// through the dial chain (mapped addresses replaced and rotated). The base
+// dial function records the address and hands out a dead connection, so the
+// hits fail, but where they dialled is known.
+func c18H2CComposition(R *ev.Run) {
+	repl := []string{"127.0.0.1:81", "127.0.0.2:82", "127.0.0.3:83"}
+	for nr := 1; nr <= 3; nr++ {
+		for _, withDNS := range []bool{false, true} {
+			var mu sync.Mutex
+			var dialled []string
+			tr := &http.Transport{DialContext: func(ctx context.Context, network, addr string) (net.Conn, error) {
+				mu.Lock()
+				dialled = append(dialled, addr)
+				mu.Unlock()
+				return c18DeadConn{}, nil
+			}}
+			opts := []func(*vegeta.Attacker){vegeta.Client(&http.Client{Transport: tr}), vegeta.Workers(1), vegeta.MaxWorkers(1), vegeta.Timeout(2 * time.Second)}
+			if withDNS {
+				opts = append(opts, vegeta.DNSCaching(0))
+			}
+			opts = append(opts, vegeta.ConnectTo(map[string][]string{"c18.invalid:80": repl[:nr]}), vegeta.H2C(true))
+			atk := vegeta.NewAttacker(opts...)
+			hits := 2 * nr
+			n := 0
+			for range atk.Attack(vegeta.NewStaticTargeter(vegeta.Target{Method: "GET", URL: "http://c18.invalid:80/"}), vegeta.Rate{Freq: 0}, 0, "c18") {
+				if n++; n >= hits {
+					atk.Stop()
+				}
+			}
+			R.Eval(1)
+			R.State(1)
+			R.Trans(hits)
+			R.Distinct(fmt.Sprint("h2c", nr, withDNS))
+			ctx := map[string]any{"options": fmt.Sprintf("Client, DNSCaching=%v, ConnectTo(%d replacements), H2C", withDNS, nr), "hits": n, "dialled": dialled}
+			cnt := map[string]int{}
+			for _, a := range dialled {
+				cnt[a]++
+			}
+			ok := len(dialled) >= hits
+			lo, hi := 1<<30, 0
+			for _, r := range repl[:nr] {
+				if cnt[r] < lo {
+					lo = cnt[r]
+				}
+				if cnt[r] > hi {
+					hi = cnt[r]
+				}
+				delete(cnt, r)
+			}
+			switch {
+			case !ok:
+				R.Violation("lib:h2c-bypasses-the-dial-chain", ctx)
+			case len(cnt) > 0:
+				R.Violation("lib:h2c-dials-an-address-that-is-not-a-replacement", ctx)
+			case hi-lo > 1:
+				R.Violation("lib:h2c-connect-to-rotation-uneven", ctx)
+			}
+		}
+	}
 }
